@@ -151,6 +151,85 @@ def eq_key(test, var):
     return None
 
 
+def _op_test(test, var):
+    """A test built only from `var == K`, `var in (K, ..)`, `and`, `or` over named constants K: returns the set of constant
+    names mentioned (positive tests only), else None."""
+    if isinstance(test, ast.BoolOp):
+        out = set()
+        for v in test.values:
+            r = _op_test(v, var)
+            if r is None:
+                return None
+            out |= r
+        return out
+    k = eq_key(test, var)
+    if k is not None:
+        c = attr_chain(k)
+        return {c} if c else None
+    if (isinstance(test, ast.Compare) and len(test.ops) == 1 and isinstance(test.ops[0], ast.In) and is_name(test.left, var)
+            and isinstance(test.comparators[0], (ast.Tuple, ast.List, ast.Set))):
+        cs = [attr_chain(e) for e in test.comparators[0].elts]
+        return set(cs) if cs and all(cs) else None
+    return None
+
+
+def _op_holds(test, var, const):
+    """Truth of a test accepted by _op_test when var holds the named constant `const` (distinct names = distinct opcodes)."""
+    if isinstance(test, ast.BoolOp):
+        vals = [_op_holds(v, var, const) for v in test.values]
+        return all(vals) if isinstance(test.op, ast.And) else any(vals)
+    k = eq_key(test, var)
+    if k is not None:
+        return attr_chain(k) == const
+    return const in [attr_chain(e) for e in test.comparators[0].elts]
+
+
+def _specialise_chain(raw_arms, var):
+    """Partial evaluation of an if/elif chain on the opcode variable for every opcode it names: arms testing several opcodes
+    (`op == A or op == B`, `op in (A, B)`) and statements inside an arm that test the opcode again (`if op == B: <invert>`)
+    are resolved per opcode. Returns [(synthetic `var == K` test, specialised body)] in order of first mention, or None when
+    some test is not a positive combination of opcode comparisons (the caller then reports the offending arm)."""
+    order = []
+    for t, b in raw_arms:
+        names = _op_test(t, var)
+        if names is None:
+            return None
+        for e in ast.walk(t):
+            c = attr_chain(e) if isinstance(e, ast.Attribute) else None
+            if c in names and c not in order:
+                order.append(c)
+        for c in sorted(names):
+            if c not in order:
+                order.append(c)
+
+    def spec(body, const):
+        out = []
+        for st in body:
+            if isinstance(st, ast.If) and _op_test(st.test, var) is not None:
+                out += spec(st.body if _op_holds(st.test, var, const) else st.orelse, const)
+            else:
+                out.append(st)
+        return out or [ast.Pass()]
+
+    res = []
+    for const in order:
+        for t, b in raw_arms:
+            if _op_holds(t, var, const):
+                parts = const.split('.')
+                k = ast.Name(id=parts[0], ctx=ast.Load())
+                for a in parts[1:]:
+                    k = ast.Attribute(value=k, attr=a, ctx=ast.Load())
+                test = ast.Compare(left=ast.Name(id=var, ctx=ast.Load()), ops=[ast.Eq()], comparators=[k])
+                ast.copy_location(test, t)
+                for n in ast.walk(test):
+                    ast.copy_location(n, t)
+                if hasattr(t, '_parent'):
+                    test._parent = t._parent
+                res.append((test, spec(b, const)))
+                break
+    return res
+
+
 class Dispatch:
     """An `for op, o0, i0, i1, i2, i3 in <ops>[:, :6]` loop with its if/elif chain on `op`."""
     def __init__(self, loop, opvar, outvar, invars, rebinding, chain_if, tail, arms, orelse):
@@ -193,6 +272,10 @@ def find_dispatch_loops(scope):
         if chain_if is None:
             continue
         raw_arms, orelse = flatten_if_chain(chain_if)
+        if any(eq_key(t, opvar) is None for t, _ in raw_arms) or any(_op_test(s.test, opvar) is not None for _, b in raw_arms for s in b if isinstance(s, ast.If)):
+            sp = _specialise_chain(raw_arms, opvar)
+            if sp is not None:
+                raw_arms = sp
         arms = []
         for test, b in raw_arms:
             k = eq_key(test, opvar)
